@@ -1,6 +1,7 @@
 import Genshi.Wire
 import Genshi.WireCore
 import Genshi.Model.PathStrategy
+import Genshi.Model.PathFrags
 import Driver.C05
 /-
   Driver verbs for C17:
@@ -13,6 +14,11 @@ import Driver.C05
         -> unsupported | unmodelled | ( err <kind> )
     C17 can <text>        -> ( ok ( <single> <simple> <generic> <chosen> )… ) per location path
     C17 frags <text>      -> SimplePathStrategy fragments per location path
+    C17 inscope <text>      -> per location path: N (not supported by SimplePathStrategy),
+                             ( none <allSStep> ) (`fragments = None`), or
+                             ( <fragsOk> <isNormPath> <allSStep> ): `T T` first = the path satisfies the
+                             hypotheses of simple_eq_generic_fragments_partial (`inScope_sound`);
+                             <allSStep> = T: those of simple_eq_generic_spellings_partial (`allSStepM_sound`)
 -/
 namespace Driver.C17
 open Genshi Genshi.Path Genshi.Sexp Driver.C05
@@ -55,6 +61,14 @@ def handle : List Sexp → Option Sexp
           | some fs => .list (fs.map fun f =>
               .list [.list (f.tests.map testSexp), .list (f.pi.map ofNat),
                      (match f.attr with | some t => testSexp t | none => .atom "N"), ofBool f.selfBeginning])))
+      | .error _ => some (.atom "unmodelled")
+  | [.atom "inscope", .str text] =>
+      match parse text with
+      | .ok ps => some (.list (.atom "ok" :: ps.map fun p =>
+          if !simpleSupports p then .atom "N" else
+          match FragsM.inScope p with
+          | none => .list [.atom "none", ofBool (FragsM.allSStepM p)]
+          | some (a, b) => .list [ofBool a, ofBool b, ofBool (FragsM.allSStepM p)]))
       | .error _ => some (.atom "unmodelled")
   | _ => none
 
